@@ -101,11 +101,11 @@ theorem decMany_length {α : Type} {p : Nat → Option (α × Nat)} : ∀ (n off
     simp [ih _ _ _ hr]
 
 /-- every label of the name can be written back -/
-def NameOK (n : WName) : Prop := ∀ l ∈ n, Utf8.reencodedLen l ≤ 63
+def NameOK (lok : Label → Prop) (n : WName) : Prop := ∀ l ∈ n, lok l
 
-theorem readQuestions_agrees {cfg : Cfg} (hc : CfgOK cfg) (ha : CfgAgree cfg) (buf : Bytes) :
+theorem readQuestions_agrees {cfg : Cfg} {lok : Label → Prop} (hc : CfgOK cfg) (ha : CfgAgree cfg lok) (buf : Bytes) :
     ∀ (n : Nat) (st : St) (qs : List WQuestion) (o' : Nat),
-      Strict.decMany (Strict.decQuestion buf) n st.off = some (qs, o') → (∀ q ∈ qs, NameOK q.name) →
+      Strict.decMany (Strict.decQuestion buf) n st.off = some (qs, o') → (∀ q ∈ qs, NameOK lok q.name) →
       CacheOK buf st.cache →
       ∃ st', readQuestions cfg buf n st = (st', qs, none) ∧ st'.off = o' ∧ CacheOK buf st'.cache := by
   intro n
@@ -249,9 +249,9 @@ theorem readString_agrees {buf : Bytes} {st : St} {n : Nat} {s : Bytes} (h : byt
   unfold readString
   rw [str_end_eq, hsl]
 
-theorem readRData_agrees {cfg : Cfg} (hc : CfgOK cfg) (ha : CfgAgree cfg) (buf : Bytes) (t rdlen : Nat) (st : St)
+theorem readRData_agrees {cfg : Cfg} {lok : Label → Prop} (hc : CfgOK cfg) (ha : CfgAgree cfg lok) (buf : Bytes) (t rdlen : Nat) (st : St)
     (rd : WRData) (hdec : Strict.decRData buf t st.off rdlen = some rd) (hsup : ∀ raw, rd ≠ .other raw)
-    (hnames : ∀ n ∈ DecodeSpec.rdataNames rd, NameOK n) (hcache : CacheOK buf st.cache) :
+    (hnames : ∀ n ∈ DecodeSpec.rdataNames rd, NameOK lok n) (hcache : CacheOK buf st.cache) :
     ∃ st', readRData cfg buf t rdlen st = (st', .ok (some (DecodeSpec.canonRData rd))) ∧
       st'.off = st.off + rdlen ∧ CacheOK buf st'.cache := by
   unfold Strict.decRData at hdec
@@ -480,11 +480,11 @@ theorem readFixed_agrees {buf : Bytes} {e t c ttl rdlen : Nat} (ht : u16At buf e
       rw [r_ttl_eq b4 b5 b6 b7 l5 l6 l7, httl]
 
 /-- the record uses a supported type and all its names can be written back -/
-def RecOK (r : WRecord) : Prop :=
-  (∀ raw, r.rdata ≠ .other raw) ∧ NameOK r.name ∧ ∀ n ∈ DecodeSpec.rdataNames r.rdata, NameOK n
+def RecOK (lok : Label → Prop) (r : WRecord) : Prop :=
+  (∀ raw, r.rdata ≠ .other raw) ∧ NameOK lok r.name ∧ ∀ n ∈ DecodeSpec.rdataNames r.rdata, NameOK lok n
 
-theorem readRecords_step {cfg : Cfg} (hc : CfgOK cfg) (ha : CfgAgree cfg) (buf : Bytes) (st : St) (r : WRecord) (o' : Nat)
-    (hdec : Strict.decRecord buf st.off = some (r, o')) (hok : RecOK r) (hcache : CacheOK buf st.cache) :
+theorem readRecords_step {cfg : Cfg} {lok : Label → Prop} (hc : CfgOK cfg) (ha : CfgAgree cfg lok) (buf : Bytes) (st : St) (r : WRecord) (o' : Nat)
+    (hdec : Strict.decRecord buf st.off = some (r, o')) (hok : RecOK lok r) (hcache : CacheOK buf st.cache) :
     ∃ st1, st1.off = o' ∧ CacheOK buf st1.cache ∧ ∀ k, readRecords cfg buf (k + 1) st =
       ((readRecords cfg buf k st1).1, DecodeSpec.canonRec r :: (readRecords cfg buf k st1).2.1,
         (readRecords cfg buf k st1).2.2) := by
@@ -504,9 +504,9 @@ theorem readRecords_step {cfg : Cfg} (hc : CfgOK cfg) (ha : CfgAgree cfg) (buf :
   rw [hrr]
   rfl
 
-theorem readRecords_agrees {cfg : Cfg} (hc : CfgOK cfg) (ha : CfgAgree cfg) (buf : Bytes) :
+theorem readRecords_agrees {cfg : Cfg} {lok : Label → Prop} (hc : CfgOK cfg) (ha : CfgAgree cfg lok) (buf : Bytes) :
     ∀ (n : Nat) (st : St) (rs : List WRecord) (o' : Nat),
-      Strict.decMany (Strict.decRecord buf) n st.off = some (rs, o') → (∀ r ∈ rs, RecOK r) → CacheOK buf st.cache →
+      Strict.decMany (Strict.decRecord buf) n st.off = some (rs, o') → (∀ r ∈ rs, RecOK lok r) → CacheOK buf st.cache →
       ∃ st', st'.off = o' ∧ CacheOK buf st'.cache ∧ ∀ m, readRecords cfg buf (n + m) st =
         ((readRecords cfg buf m st').1, rs.map DecodeSpec.canonRec ++ (readRecords cfg buf m st').2.1,
           (readRecords cfg buf m st').2.2) := by
@@ -609,21 +609,17 @@ theorem readHeader_agrees {pkt : Bytes} {id flags nq nan nau nad : Nat}
   rw [t10]
   rfl
 
-theorem parse_agrees {cfg : Cfg} (hc : CfgOK cfg) (ha : CfgAgree cfg) (b : Bytes) (m : WMsg)
-    (hdec : Strict.decode b = some m) (hsup : Strict.supportedOnly m = true) (hre : DecodeSpec.reencodable m = true) :
+theorem parse_agrees_of {cfg : Cfg} {lok : Label → Prop} (hc : CfgOK cfg) (ha : CfgAgree cfg lok) (b : Bytes) (m : WMsg)
+    (hdec : Strict.decode b = some m) (hsup : Strict.supportedOnly m = true)
+    (hnames : ∀ n ∈ DecodeSpec.msgNames m, NameOK lok n) :
     ∃ p, (parseWith cfg b).out = .ok p ∧ DecodeSpec.agrees p m = true := by
   obtain ⟨nq, nan, nau, nad, o1, o2, o3, h0, h2, h4, h6, h8, h10, hq, han, hau, had⟩ := decode_parts hdec
-  -- the hypotheses, name by name
-  have hnames : ∀ n ∈ DecodeSpec.msgNames m, NameOK n := by
-    intro n hn l hl
-    simp only [DecodeSpec.reencodable, List.all_eq_true, decide_eq_true_eq] at hre
-    exact hre n hn l hl
-  have hqok : ∀ q ∈ m.questions, NameOK q.name := by
+  have hqok : ∀ q ∈ m.questions, NameOK lok q.name := by
     intro q hq
     apply hnames
     simp only [DecodeSpec.msgNames, List.mem_append, List.mem_map]
     exact Or.inl ⟨q, hq, rfl⟩
-  have hrok : ∀ r ∈ m.answers ++ m.authorities ++ m.additionals, RecOK r := by
+  have hrok : ∀ r ∈ m.answers ++ m.authorities ++ m.additionals, RecOK lok r := by
     intro r hr
     have hs : ∀ raw, r.rdata ≠ .other raw := by
       intro raw heq
@@ -652,9 +648,10 @@ theorem parse_agrees {cfg : Cfg} (hc : CfgOK cfg) (ha : CfgAgree cfg) (b : Bytes
     (fun r hr => hrok r (by simp [hr])) hc3
   obtain ⟨st5, _, _, hr5⟩ := readRecords_agrees hc ha b nad st4 m.additionals b.length (by rw [ho4]; exact had)
     (fun r hr => hrok r (by simp [hr])) hc4
-  have hall : readRecords cfg b (Gen.Incoming.others_count nan nau nad) st2 =
+  have hall : readRecords cfg b (Gen.Incoming.r_loop_count (Gen.Incoming.others_count nan nau nad)) st2 =
       (st5, DecodeSpec.flat m, none) := by
-    have e1 : Gen.Incoming.others_count nan nau nad = nan + (nau + (nad + 0)) := by rw [others_count_eq]; omega
+    have e1 : Gen.Incoming.r_loop_count (Gen.Incoming.others_count nan nau nad) = nan + (nau + (nad + 0)) := by
+      rw [r_loop_count_eq, others_count_eq]; omega
     rw [e1, hr3, hr4, hr5]
     unfold readRecords
     simp [DecodeSpec.flat]
@@ -673,9 +670,31 @@ theorem parse_agrees {cfg : Cfg} (hc : CfgOK cfg) (ha : CfgAgree cfg) (b : Bytes
     dsimp only
     rw [hhdr]
     dsimp only
-    rw [hqs]
+    rw [q_loop_count_eq, hqs]
     dsimp only
     split <;> rw [hothers]
   · simp [DecodeSpec.agrees, hlq, hla, hlu, hld]
+
+/-- with the D8 test in place: agreement for messages whose labels can all be written back -/
+theorem parse_agrees {cfg : Cfg} (hc : CfgOK cfg) (ha : CfgAgree cfg Reencodable) (b : Bytes) (m : WMsg)
+    (hdec : Strict.decode b = some m) (hsup : Strict.supportedOnly m = true) (hre : DecodeSpec.reencodable m = true) :
+    ∃ p, (parseWith cfg b).out = .ok p ∧ DecodeSpec.agrees p m = true := by
+  apply parse_agrees_of hc ha b m hdec hsup
+  intro n hn l hl
+  simp only [DecodeSpec.reencodable, List.all_eq_true, decide_eq_true_eq] at hre
+  exact hre n hn l hl
+
+/-- the decoder with the hop bound (D2) but without the label re-encoding test (D8) -/
+def noD8Cfg : Cfg := ⟨libCfg.hopLimit, fun _ _ => false, libCfg.recLimit⟩
+
+theorem noD8Cfg_ok : CfgOK noD8Cfg := ⟨libCfg_ok.hop, libCfg_ok.recOk⟩
+
+theorem noD8Cfg_agree : CfgAgree noD8Cfg (fun _ => True) := ⟨fun _ _ => rfl, libCfg_agree.hopOk⟩
+
+/-- without the D8 test the agreement needs no proviso about labels -/
+theorem parse_agrees_noD8 (b : Bytes) (m : WMsg) (hdec : Strict.decode b = some m)
+    (hsup : Strict.supportedOnly m = true) :
+    ∃ p, (parseWith noD8Cfg b).out = .ok p ∧ DecodeSpec.agrees p m = true :=
+  parse_agrees_of noD8Cfg_ok noD8Cfg_agree b m hdec hsup (fun _ _ _ _ => trivial)
 
 end Zc.Wire.DecodeLib
